@@ -1574,7 +1574,7 @@ fn aggregate_scalar_simd(
                 // SQL: MIN over no (non-NULL) value is NULL, not a sentinel
                 Arc::new(Int64Array::from(vec![a.iter().flatten().min()]))
             } else if let Some(a) = input.as_any().downcast_ref::<Float64Array>() {
-                let min = a.iter().flatten().min_by(|a, b| a.partial_cmp(b).unwrap());
+                let min = a.iter().flatten().min_by(|a, b| a.total_cmp(b));
                 Arc::new(Float64Array::from(vec![min]))
             } else if let Some(a) = input.as_any().downcast_ref::<StringArray>() {
                 let min = a.iter().flatten().min();
@@ -1596,7 +1596,7 @@ fn aggregate_scalar_simd(
                 // SQL: MAX over no (non-NULL) value is NULL, not a sentinel
                 Arc::new(Int64Array::from(vec![a.iter().flatten().max()]))
             } else if let Some(a) = input.as_any().downcast_ref::<Float64Array>() {
-                let max = a.iter().flatten().max_by(|a, b| a.partial_cmp(b).unwrap());
+                let max = a.iter().flatten().max_by(|a, b| a.total_cmp(b));
                 Arc::new(Float64Array::from(vec![max]))
             } else if let Some(a) = input.as_any().downcast_ref::<StringArray>() {
                 let max = a.iter().flatten().max();
